@@ -1,12 +1,13 @@
 /-
   C12 — ToJSONSchema is a pure, deterministic function of the schema.
 
-  Model: `Gozod.Model.Store` (`convert`, `entriesOf`, `applyBag`).  The theorems are about the code after
-  pending/C12-convert-scratch-bag.diff (OnAttach callbacks annotate a private scratch copy; `size` is applied
-  after the `range bag` loop) together with pending/C08-clone-bag.diff.  For the pinned code the witnesses
-  `today_convert_pollutes_parent` (converting `String().Min(5)` makes the parent `String()` emit minLength 5) and
-  `today_applyBag_order_dependent` (`File().Size(3).Min(1)`: minLength 3 or 1 depending on Go's map order) show
-  that both halves of the statement are false.
+  LEGACY (round 4c): the first half of this file (`c12_pure` … `c12_hist`, `today_*`) is about the Bag-level definitions
+  `Store.convert`, `Store.entriesOf`, `Store.applyBag` of `Model/Store.lean`, which NO driver executes any more and whose purity
+  under `convScratch` holds by unfolding (`convert` is defined as `(σ, s, …)`).  The statements that carry the property are in
+  `Proofs/C12Doc.lean`, about the definitions the driver runs (`ConvDoc.runTrace` over the regenerated write sites, `ConvDoc.docOf`
+  over the regenerated `applyBag` row).  The `today_*` witnesses describe the pinned tree before 6cd8299 in that legacy model.
+  They are kept because `Proofs/C12Opts.lean` (options, Override, examples) is built on `convert`, and are no longer listed in
+  `vlib/c12.py` THEOREMS.  The second half (registry: `annotateEntry`, `convertReg`) IS executed by the driver.
 -/
 import Gozod.Proofs.C08
 
